@@ -229,6 +229,15 @@ def run(ctx):
                 # reset on every path from the wrap to the loop head
                 resets = [k[2] for k in falses]
                 ok3 = prim.must_pass(fn, b, [d.head], resets)
+                if not ok3:
+                    # test-and-reset in one step (`if mem::take(&mut flag) { wrap }`): the reset comes first, it dominates the
+                    # wrap and nothing writes the flag between the two
+                    writers = [bb_ for bb_, _, _ in allw]
+                    for r_ in resets:
+                        if r_ != 0 and fn.dominates(r_, b) and fn.dominates(d.head, r_):
+                            between = [w_ for w_ in writers if w_ != r_ and w_ in fn.reach_from(fn.succs(r_), avoid=(r_,)) and b in fn.reach_from([w_], avoid=(r_,))]
+                            if not between:
+                                ok3 = True
                 ctx.ob("R2", "negation-reset-after-use", ok3, "after wrapping a primary in NotMatcher the flag must be reset on every path before the next token ('!' applies to exactly one primary)", fn=fn, where=prim.site(fn, b), how="must-pass")
             for b, t in appends:
                 o = prim.origin_of_operand(fn, t.args[1])
